@@ -42,6 +42,21 @@ Fixpoint flat_fields (fuel : nat) (sc : schema) (gs : list field) (xs : list val
    slot per caller segment.  ESig hdr b: T and L written, the buffer closed, one slot for the signature. *)
 Inductive ev := EBytes (b : bytes) | EWire (hdr : bytes) (segs : list bytes) | ESig (hdr : bytes) (b : bytes).
 
+(* A nested nocopy struct whose last written thing is the header of an *empty* wire: the inner Init drops the closed
+   empty tail (`if l > 0 { wirePlan = append(wirePlan, l) }`), its plan ends with a non-zero entry, and the outer
+   struct (fields_struct.go: `lastL > 0` / `if l == 0 { switch }`) goes on writing in that same buffer.  So at the end of
+   a nested struct's events such a header is plain bytes.  (At the top level, or followed by anything inside the
+   nested struct, the buffer is closed after the header.) *)
+Definition ev_empty (e : ev) : bool := match e with EBytes [] => true | _ => false end.
+Fixpoint fix_tail (evs : list ev) : list ev :=
+  match evs with
+  | [] => []
+  | e :: r =>
+    if forallb ev_empty r then
+      match e with EWire hdr [] => EBytes hdr :: r | _ => e :: r end
+    else e :: fix_tail r
+  end.
+
 (* inc m i = true: field i of model m is a struct field with the `nocopy` annotation (struct:T:nocopy) *)
 Section Events.
   Variable sc : schema.
@@ -69,7 +84,7 @@ Section Events.
                   let inner := flat_fields f sc (flds (the_model sc m)) fs in
                   let ilen := enc_len f sc m inner in
                   EBytes (tl_enc (ftyp g) ++ tl_enc ilen) ::
-                  (if 0 <? ilen then ev_fields f m 0 (flds (the_model sc m)) fs else [])
+                  (if 0 <? ilen then fix_tail (ev_fields f m 0 (flds (the_model sc m)) fs) else [])
                 else [EBytes (enc_val (S f) sc (ftyp g) (fk g) (flat_val (S f) sc (fk g) x))]
             | k, _ => [EBytes (enc_val (S f) sc (ftyp g) k (flat_val (S f) sc k x))]
             end) ++ go (S i) gs' xs'
@@ -133,6 +148,15 @@ Proof.
     + rewrite (IH []). cbn [app]. rewrite <- !app_assoc. reflexivity.
 Qed.
 
+Lemma fix_tail_bytes : forall evs, concat (map ev_bytes (fix_tail evs)) = concat (map ev_bytes evs).
+Proof.
+  induction evs as [|e evs IH]; [reflexivity|]. cbn [fix_tail].
+  destruct (forallb ev_empty evs).
+  - destruct e as [b|hdr [|s segs]|hdr b]; try reflexivity.
+    cbn [map concat ev_bytes]. rewrite app_nil_r. reflexivity.
+  - cbn [map concat]. rewrite IH. reflexivity.
+Qed.
+
 (* ---- the joined wire is the encoding of the flattened value ---- *)
 Lemma flat_struct f sc m fs :
   flat_val (S f) sc (KStruct m) (VStruct fs) = VStruct (flat_fields f sc (flds (the_model sc m)) fs).
@@ -167,7 +191,7 @@ Section Concat.
           let inner := flat_fields f sc (flds (the_model sc m)) fs in
           let ilen := enc_len f sc m inner in
           EBytes (tl_enc (ftyp g) ++ tl_enc ilen) ::
-          (if 0 <? ilen then ev_fields sc inc f m 0 (flds (the_model sc m)) fs else [])
+          (if 0 <? ilen then fix_tail (ev_fields sc inc f m 0 (flds (the_model sc m)) fs) else [])
         else [EBytes (enc_val (S f) sc (ftyp g) (fk g) (flat_val (S f) sc (fk g) x))]
     | k, _ => [EBytes (enc_val (S f) sc (ftyp g) k (flat_val (S f) sc k x))]
     end.
@@ -210,7 +234,7 @@ Section Concat.
         set (X := zipf _ (flds (nth m sc _)) _) in *.
         rewrite <- HL. unfold tlv. rewrite <- app_assoc. f_equal. f_equal.
         destruct (0 <? N.of_nat (length X)) eqn:E.
-        * exact HI.
+        * rewrite fix_tail_bytes. exact HI.
         * destruct X; [reflexivity|cbn [length] in E; lia].
       + (* KSig *)
         destruct x; try (cbn [map concat ev_bytes]; rewrite app_nil_r; reflexivity).
